@@ -42,7 +42,7 @@ def evaluate(P, cases, tier):
     lines = [sexp.dump(c) for c in cases]
     t0 = time.time()
     impl = core.run_harness(lines, P.POINTS, isolate=getattr(P, 'ISOLATE', False),
-                            timeout_ms=getattr(P, 'TIMEOUT_MS', 5000), jobs=JOBS)
+                            timeout_ms=getattr(P, 'TIMEOUT_MS', 5000), jobs=JOBS, extra_env=getattr(P, 'HARNESS_ENV', None))
     t1 = time.time()
     model = core.run_model(lines, getattr(P, 'MODEL_POINTS', P.POINTS + ['spec']), jobs=JOBS)
     t2 = time.time()
